@@ -490,7 +490,22 @@ fn check_held(cx: &Ctx, wire: &Wire, current: &dyn Fn(usize) -> String, held: &[
         }
         // neither released nor written by the transport: safe code reads the held value
         let cur = current(hd.idx);
-        if cur != hd.copy {
+        // A transport read that came after another one had filled the buffer to its end: before it
+        // the connection either grew the buffer (caught above as a release) or moved the pending
+        // bytes to the front to use the space of the messages already handed out again.
+        let reclaimed = (hd.reads_mark.max(1)..w.reads.len()).any(|j| w.reads[j - 1].n == w.reads[j - 1].cap && w.reads[j - 1].cap > 0);
+        if cur != hd.copy && reclaimed && !hd.rest_already_read {
+            cx.soft_fail(
+                format!("borrow:{site_name}:held-item-moved-over-when-a-full-buffer-was-reclaimed"),
+                format!(
+                    "item #{} read `{}` when yielded and reads `{}` after item/end #{now}: a later transport read found the buffer full and the connection moved the pending bytes to its front, over the held item. frames: {:?}",
+                    hd.idx,
+                    hd.copy.chars().take(40).collect::<String>(),
+                    cur.chars().take(40).collect::<String>(),
+                    frames.iter().map(|f| f.bytes.len()).collect::<Vec<_>>()
+                ),
+            );
+        } else if cur != hd.copy {
             cx.soft_fail(
                 format!("borrow:{site_name}:held-item-content-changed{site}"),
                 format!("item #{} read `{}` when yielded and reads `{}` after item/end #{now}", hd.idx, hd.copy.chars().take(40).collect::<String>(), cur.chars().take(40).collect::<String>()),
